@@ -361,3 +361,126 @@ def main_wrapper(run):
         traceback.print_exc()
         print(f"[{a.pid}] harness error (exit 2)")
         return 2
+
+
+# --------------------------------------------------------------------------------------
+# isolated execution: cases run in child processes, so that a hard abort inside a C library
+# (GLPK calls abort() on some inputs) costs one case, not the run
+# --------------------------------------------------------------------------------------
+
+def _isolated_worker(conn, module_name, func_name):
+    import importlib
+    import os
+    try:        # messages GLPK prints before it aborts belong to the case, not to the check's output
+        _dn = os.open(os.devnull, os.O_WRONLY)
+        os.dup2(_dn, 2)
+        os.dup2(_dn, 1)
+    except OSError:
+        pass
+    mod = importlib.import_module(module_name)
+    fn = getattr(mod, func_name)
+    while True:
+        try:
+            case = conn.recv()
+        except EOFError:
+            return
+        if case is None:
+            return
+        try:
+            res = fn(case)
+        except Exception as e:      # a harness error inside the child: reported to the parent, which re-raises it
+            import traceback
+            res = {"__harness_error__": f"{type(e).__name__}: {e}", "trace": traceback.format_exc()[-1500:]}
+        conn.send(res)
+
+
+class IsolatedPool:
+    """K persistent child processes; `run(cases)` yields (case, result) in completion order; result is the string 'aborted' when the child died."""
+
+    def __init__(self, module_name: str, func_name: str, workers: int = 6, timeout: float = 300.0):
+        import multiprocessing as mp
+        self.mp = mp.get_context("fork")
+        self.module_name, self.func_name = module_name, func_name
+        self.workers = workers
+        self.timeout = timeout
+        self.slots = [None] * workers
+
+    def _spawn(self, i):
+        parent, child = self.mp.Pipe()
+        p = self.mp.Process(target=_isolated_worker, args=(child, self.module_name, self.func_name), daemon=True)
+        p.start()
+        child.close()
+        self.slots[i] = {"proc": p, "conn": parent, "case": None, "t0": 0.0}
+
+    def run(self, case_iter):
+        import time as _t
+        case_iter = iter(case_iter)
+        exhausted = False
+        busy = 0
+        while True:
+            for i in range(self.workers):
+                s = self.slots[i]
+                if s is None or not s["proc"].is_alive() and s["case"] is None:
+                    if not exhausted:
+                        self._spawn(i)
+                        s = self.slots[i]
+                    else:
+                        continue
+                if s["case"] is None and not exhausted:
+                    try:
+                        c = next(case_iter)
+                    except StopIteration:
+                        exhausted = True
+                        continue
+                    s["case"], s["t0"] = c, _t.time()
+                    s["conn"].send(c)
+                    busy += 1
+            if busy == 0 and exhausted:
+                break
+            progressed = False
+            for i in range(self.workers):
+                s = self.slots[i]
+                if s is None or s["case"] is None:
+                    continue
+                try:
+                    ready = s["conn"].poll(0.01)
+                except (EOFError, OSError):
+                    ready = True
+                if ready:
+                    try:
+                        res = s["conn"].recv()
+                    except (EOFError, OSError):
+                        res = "aborted"
+                    c, s["case"] = s["case"], None
+                    busy -= 1
+                    progressed = True
+                    if res == "aborted":
+                        self.slots[i] = None
+                    yield c, res
+                elif not s["proc"].is_alive() or _t.time() - s["t0"] > self.timeout:
+                    try:
+                        s["proc"].kill()
+                    except Exception:
+                        pass
+                    c, s["case"] = s["case"], None
+                    busy -= 1
+                    self.slots[i] = None
+                    progressed = True
+                    yield c, "aborted"
+            if not progressed:
+                _t.sleep(0.005)
+
+    def close(self):
+        for s in self.slots:
+            if s is not None:
+                try:
+                    s["conn"].send(None)
+                except Exception:
+                    pass
+                try:
+                    s["proc"].join(0.5)
+                    if s["proc"].is_alive():
+                        s["proc"].kill()
+                except Exception:
+                    pass
+        self.slots = [None] * self.workers
